@@ -226,6 +226,9 @@ class CoercerMethod(DeserializationMethod):
     method: DeserializationMethod
 
     def deserialize(self, data: Any) -> Any:
+        if isinstance(data, Discriminated):  # coerce the data, not its wrapper
+            data = Discriminated(data.discriminator, self.coercer(self.cls, data.data))
+            return self.method.deserialize(data)
         return self.method.deserialize(self.coercer(self.cls, data))
 
 
